@@ -20,6 +20,7 @@ import Mistletoe.Props.C03_Code
 import Mistletoe.Props.C07_Resolve
 import Mistletoe.Props.C10_Lists
 import Mistletoe.Props.C19_EndToEnd
+import Mistletoe.Props.C19_Tokens
 import Mistletoe.Props.C06_Html
 import Mistletoe.Props.C09_Setext
 import Mistletoe.Props.C09_Emph
@@ -334,6 +335,8 @@ def c19Document (j : Json) : Except String Json := do
       let plain := Props.C19.plainHeadings q d
       let ok := plain && Block.isOutline hs && Props.C19.titlesPlain hs
       pure (Json.mkObj [("ok", Json.bool ok), ("plain", Json.bool plain),
+        -- the extra hypothesis of `C19_document_toc_tokens`: every qualifying title is inert inline text
+        ("titlesInert", Json.bool (Props.C19.titlesInert hs)),
         ("headings", Json.arr (hs.map (fun h => Json.arr #[Driver.nat h.1, Driver.str h.2])).toArray),
         ("forest", forestJson (Block.toForest hs))])
 
